@@ -1169,6 +1169,20 @@ pub fn gen_merge(rng: &mut Rng) -> MergeCase {
         8 => "out.dat:BedGraph".to_string(),
         _ => "out.bedGraph".to_string(),
     };
+    let mut mode = mode;
+    if rng.chance(1, 100) {
+        // large merge through the tool (-t 1, bigWig output): one chromosome with more merged values than the tool's
+        // section channel can hold (100 sections of 1024 items), alternating values so that nothing coalesces
+        let n = 104_000 + rng.below(30_000) as u32;
+        let start = rng.below(1000) as u32;
+        let items: Vec<Item> = (0..n).map(|i| Item::wig(start + i, start + i + 1, if i % 2 == 0 { 1.0 } else { 2.0 })).collect();
+        inputs[0] = vec![Chrom {
+            name: names[0].to_string(),
+            len: lens[0],
+            items,
+        }];
+        mode = if rng.chance(1, 2) { "out.bw".to_string() } else { "out.bigWig".to_string() };
+    }
     let error_at = if mode == "lib" && rng.chance(1, 4) {
         let n = inputs[0][0].items.len();
         Some((0usize, rng.below(n as u64 + 1) as usize))
@@ -1183,7 +1197,13 @@ pub fn gen_merge(rng: &mut Rng) -> MergeCase {
         mode,
         error_at,
         via_list: if rng.chance(1, 4) { 1 + rng.below(2) as u8 } else { 0 },
-        read_fail: if rng.chance(1, 5) { Some((rng.below(5) as u8, rng.below(40) as u32)) } else { None },
+        // (a third of these without a fault: nth beyond any run; the composed path then has to be exact, under
+        // small items-per-slot / channel sizes chosen from the two numbers)
+        read_fail: if rng.chance(1, 5) {
+            Some((rng.below(8) as u8, if rng.chance(1, 3) { 4_000_000_000 - rng.below(4) as u32 } else { rng.below(40) as u32 }))
+        } else {
+            None
+        },
     }
 }
 
@@ -1544,6 +1564,7 @@ fn run_merge_inner(c: &MergeCase, st: &mut RunStats) -> Verdict {
     let is_bedgraph = otype.as_deref().map(|t| t.eq_ignore_ascii_case("bedgraph")).unwrap_or(fname.ends_with(".bedGraph"));
     let r = match c.read_fail {
         Some((which, nth)) if !is_bedgraph => {
+            *st.counters.entry("tool_pipeline_composed_over_simread".into()).or_insert(0) += 1;
             let (r, fired) = merge_with_failing_input(c, &images, &outp, which as usize % images.len(), nth);
             if fired > 0 {
                 *st.faults.entry("F10_hard_read_error".into()).or_insert(0) += fired;
@@ -1671,10 +1692,16 @@ fn merge_with_failing_input(c: &MergeCase, images: &[Vec<u8>], outp: &Path, whic
         Ok((chrom, size, MergingValues::new(iters, threshold, adjust, clip)))
     });
     let source = ChromGroupReadImpl { iter: Box::new(iter) };
-    let outb = match bigtools::BigWigWrite::create_file(outp, chrom_map) {
+    let mut outb = match bigtools::BigWigWrite::create_file(outp, chrom_map) {
         Ok(o) => o,
         Err(e) => return (Err(format!("HARNESS: create: {}", e)), 0),
     };
+    // the tool always writes with the default options; composed here, the hand-off sizes can be small, so that
+    // a few dozen values already fill the section channel
+    if let Some((w, n)) = c.read_fail {
+        outb.options.items_per_slot = [1024u32, 1, 2, 8][(w as usize / 2) % 4];
+        outb.options.channel_size = [100usize, 0, 1, 2][n as usize % 4];
+    }
     let res = std::panic::catch_unwind(std::panic::AssertUnwindSafe(|| {
         let runtime = sched::current_thread_runtime();
         outb.write(source, runtime).map_err(|e| e.to_string())
